@@ -50,6 +50,11 @@ func newCtx(prop, tier string, p *Program) *Ctx {
 func (c *Ctx) Rule(id, desc string) { c.Rules[id] = desc }
 
 func (c *Ctx) add(rule, construct, pos string, st Status, detail string, path []string) {
+	for _, o := range c.Obs {
+		if o.Rule == rule && o.Construct == construct && o.Pos == pos && o.Status == st && o.Detail == detail {
+			return // the same obligation reached twice (e.g. through two entry points)
+		}
+	}
 	c.Obs = append(c.Obs, Obligation{Rule: rule, Construct: construct, Pos: pos, Status: st, Detail: detail, Path: path})
 }
 func (c *Ctx) Ok(rule, construct, pos, detail string) { c.add(rule, construct, pos, OK, detail, nil) }
